@@ -526,12 +526,22 @@ func (fid *SrvFid) DecRef() {
 		return
 	}
 
+	fid.unbind()
 	conn := fid.Fconn
-	conn.Lock()
-	delete(conn.fidpool, fid.fid)
-	conn.Unlock()
-
 	if fop, ok := (conn.Srv.ops).(SrvFidOps); ok {
 		fop.FidDestroy(fid)
 	}
+}
+
+// unbind takes the fid out of its connection's fid table, unless its
+// number has already been bound to another fid. A clunked or removed
+// fid is unbound when the reply is sent, even if other requests still
+// use it; it is destroyed when the last of them returns.
+func (fid *SrvFid) unbind() {
+	conn := fid.Fconn
+	conn.Lock()
+	if conn.fidpool[fid.fid] == fid {
+		delete(conn.fidpool, fid.fid)
+	}
+	conn.Unlock()
 }
